@@ -139,12 +139,24 @@ def check_case(case, res=None):
             m = cands[f % len(cands)]
             if m not in firsts:
                 firsts.append(m)
-        for first in firsts:
+        for nth, first in enumerate(firsts):
             req = request_for(tree, first)
             rp = os.path.join(pkg.root, "req.json")
             with open(rp, "w") as fh:
                 json.dump(req, fh)
-            r = subprocess.run([PY, "-B", os.path.join(VERIF, "vlib", "sub_import.py"), pkg.root, rp],
+            where = pkg.root
+            if nth == 1:
+                # the same package deployed as a zip archive on sys.path (zipapp, zipped site-packages)
+                import zipfile
+                where = os.path.join(pkg.root, "bundle.zip")
+                with zipfile.ZipFile(where, "w") as z:
+                    top = os.path.join(pkg.root, "eolib")
+                    for dirpath, dirnames, filenames in os.walk(top):
+                        dirnames[:] = sorted(d for d in dirnames if d != "__pycache__")
+                        for fn in sorted(filenames):
+                            full = os.path.join(dirpath, fn)
+                            z.write(full, os.path.relpath(full, pkg.root))
+            r = subprocess.run([PY, "-B", os.path.join(VERIF, "vlib", "sub_import.py"), where, rp],
                                env=env, capture_output=True, text=True)
             try:
                 jr = json.loads(r.stdout.strip().splitlines()[-1])
@@ -153,13 +165,15 @@ def check_case(case, res=None):
             cj = {"tree": tree, "firsts": case["firsts"], "first_import": first, "xml": gencase.xml_of(tree)}
             if jr["import_error"]:
                 raise Violation("import_succeeds", cj, "import eolib succeeds", jr["import_error"],
-                                f"first import {first}")
+                                f"first import {first}" + (" (from a zip archive)" if where != pkg.root else ""))
             if jr["problems"]:
                 p = jr["problems"][0]
                 raise Violation("namespace:" + p[0] + ":" + str(p[1]).replace("eolib.protocol._generated", "G"),
                                 cj, "no problems", jr["problems"][:6], f"first import {first}")
             if res is not None:
                 res.labels["first:" + ("generated" if "_generated" in first else first)] += 1
+                if where != pkg.root:
+                    res.labels["imported_from_zip_archive"] += 1
                 res.extra["module_paths_checked"] = res.extra.get("module_paths_checked", 0) + len(req["module_paths"])
                 res.extra["public_names_checked"] = res.extra.get("public_names_checked", 0) + len(req["public_names"])
                 if ndirs >= 3:
